@@ -697,4 +697,4 @@ package router
 //@   callsite go: [C15:refused-connection-not-served] gAdm == nil
 //@   loop 1:
 //@     modifies *
-//@     invariant s != nil && s.r != nil && s.l != nil && s.logger != nil && r == s.r
+//@     invariant s != nil && s.r != nil && s.l != nil && s.logger != nil && r == s.r && nRemote >= 0
